@@ -179,10 +179,14 @@ def main(argv=None):
         "wall_s": round(time.time() - t0, 2),
         "violations": len(violations),
     }
-    os.makedirs(os.path.join(env.VERIF_DIR, "evidence"), exist_ok=True)
-    if not args.only:
-        with open(os.path.join(env.VERIF_DIR, "evidence", f"{prop}.json"), "w") as f:
-            json.dump(json.loads(core.jdump(ev)), f, indent=1)
+    # evidence belongs to runs against /repo itself; sensitivity runs against a scratch copy
+    # (VERIF_REPO=...) and partial runs (--only) write next to the scratch replays instead
+    official = os.path.realpath(env.REPO) == os.path.realpath("/repo") and not args.only
+    ev_dir = os.path.join(env.VERIF_DIR, "evidence" if official else "replays-out")
+    os.makedirs(ev_dir, exist_ok=True)
+    ev["coverage"]["tree_under_test"] = env.REPO
+    with open(os.path.join(ev_dir, f"{prop}.json" if official else f"evidence-{prop}.json"), "w") as f:
+        json.dump(json.loads(core.jdump(ev)), f, indent=1)
 
     # ---- report ----------------------------------------------------------------------
     print(f"[{prop}] tier={args.tier} seed={seed} cases={total_eval} distinct_nontrivial={total_nontriv} "
@@ -193,6 +197,13 @@ def main(argv=None):
     for k in known_entries:
         if known_seen.get(k["key"]):
             print(f"KNOWN-FINDING: property={prop} {k['key']}: {k['what']} (hits={known_seen[k['key']]})")
+    seen_keys = set()
+    uniq = []
+    for key, what, rel in violations:
+        if key not in seen_keys:
+            seen_keys.add(key)
+            uniq.append((key, what, rel))
+    violations = uniq
     for key, what, rel in violations:
         print(f"  {key}: {what}")
     if harness_errors:
